@@ -8,7 +8,7 @@ from lib import run_tlc, workdir
 
 HERE = os.path.dirname(os.path.dirname(os.path.dirname(os.path.abspath(__file__))))
 sys.path.insert(0, os.path.join(HERE, "tools"))
-import cbgen, bindgen_mock
+import cbgen, bindgen_mock, cbgen_cpp, bindgen_mock_cpp
 
 TRAITS = [
     {"name": "Ta", "methods": [{"name": "f", "recv": "ref", "args": ["u64", "i32"], "ret": "u64"},
@@ -71,11 +71,21 @@ def enumerate_models(c, tier):
     return wd, sel, len(models)
 
 
-def run_tool(tool, fakebin, wd, model, idx, extra_args=None, out_name="out.h"):
-    md = os.path.join(wd, "m%d" % idx)
+def cpp_applicable(model):
+    """C++ headers: a default container without a default context makes the tool write `typename CGlueCtx =
+    NoContext`; whether cbindgen's C++ output declares `NoContext` cannot be established offline, so that
+    configuration is left out of the C++ space (recorded in the evidence)."""
+    cfg = model.get("config", {})
+    return not (cfg.get("default_container") and not cfg.get("default_context"))
+
+
+def run_tool(tool, fakebin, wd, model, idx, extra_args=None, out_name=None, lang="c"):
+    md = os.path.join(wd, "m%d%s" % (idx, "" if lang == "c" else "_cpp"))
     os.makedirs(md, exist_ok=True)
-    raw = os.path.join(md, "raw.h")
-    open(raw, "w").write(cbgen.render(model))
+    ext = "h" if lang == "c" else "hpp"
+    out_name = out_name or ("out." + ext)
+    raw = os.path.join(md, "raw." + ext)
+    open(raw, "w").write(cbgen.render(model) if lang == "c" else cbgen_cpp.render(model))
     json.dump(model, open(os.path.join(md, "model.json"), "w"))
     pre = []
     if model["config"]:
@@ -87,63 +97,80 @@ def run_tool(tool, fakebin, wd, model, idx, extra_args=None, out_name="out.h"):
     env["PATH"] = fakebin + ":" + env["PATH"]
     env["FAKE_CBINDGEN_HEADER"] = raw
     env["FAKE_CBINDGEN_ARGV"] = os.path.join(md, "argv.txt")
-    args = extra_args if extra_args is not None else ["--config", "cb.toml", "--crate", "api", "--output", outp, "-l", "C"]
+    args = extra_args if extra_args is not None else ["--config", "cb.toml", "--crate", "api", "--output", outp, "-l", "C" if lang == "c" else "C++"]
     p = subprocess.run([tool] + pre + ["--"] + args, capture_output=True, text=True, env=env, cwd=md)
     return md, raw, outp, p
 
 
 # ------------------------------------------------------------------------------------------------
-def run_c17(c, tier):
+def run_c17(c, tier, langs=("c", "cpp")):
     wd, models, total = enumerate_models(c, tier)
     tool = tool_binary()
     fakebin = fake_cbindgen(wd)
     trace = os.path.join(wd, "wrappers.ndjson")
     known = {k["site"]: k for k in lib.known_findings("C17")}
     n_entries = n_calls = 0
+    per_lang = {l: {"models": 0, "entries": 0, "calls": 0} for l in langs}
+    skipped_cpp = 0
     with open(trace, "w") as tf:
         for idx, model in enumerate(models):
-            md, raw, outp, p = run_tool(tool, fakebin, wd, model, idx)
+          for lang in langs:
+            if lang == "cpp" and not cpp_applicable(model):
+                skipped_cpp += 1
+                continue
+            md, raw, outp, p = run_tool(tool, fakebin, wd, model, idx, lang=lang)
             if p.returncode != 0 or not os.path.exists(outp):
-                c.violation("cglue-bindgen failed on a header in the supported shape: %s" % p.stderr[-300:], {"model": model, "raw": raw})
+                c.violation("cglue-bindgen failed on a %s header in the supported shape: %s" % (lang, p.stderr[-300:]), {"model": model, "raw": raw})
                 continue
             header = open(outp).read()
-            src, expected = bindgen_mock.gen(model, header)
-            open(os.path.join(md, "processed.h"), "w").write(header)
-            open(os.path.join(md, "driver.c"), "w").write(src)
-            pc = subprocess.run(["gcc", "-std=c99", "-O0", "-w", "-o", os.path.join(md, "driver"), os.path.join(md, "driver.c")], capture_output=True, text=True)
-            if pc.returncode != 0:
-                c.violation("a C caller cannot compile calls to the generated wrappers: %s" % pc.stderr[-400:], {"model": model, "dir": md})
-                continue
-            pr = subprocess.run([os.path.join(md, "driver")], capture_output=True, text=True, timeout=60)
-            if pr.returncode != 0:
-                c.violation("calling the generated wrappers crashed (rc=%s)" % pr.returncode, {"model": model, "dir": md})
-                continue
+            if lang == "c":
+                src, expected = bindgen_mock.gen(model, header)
+                hname, dname, cc = "processed.h", "driver.c", ["gcc", "-std=c99"]
+            else:
+                src, expected = bindgen_mock_cpp.gen(model, header)
+                hname, dname, cc = "processed.hpp", "driver.cpp", ["g++", "-std=c++11"]
+            open(os.path.join(md, hname), "w").write(header)
+            open(os.path.join(md, dname), "w").write(src)
+            per_lang[lang]["models"] += 1
+            missing = False
             for e in expected:
                 n_entries += 1
+                per_lang[lang]["entries"] += 1
                 if not e["present"] or not e.get("signature_ok", False):
+                    missing = True
                     clash = e["owner_kind"] == "group" and any(
                         e["m"] in [m["name"] for m in t["methods"]] and t["name"] != e["tr"]
                         for g in model["groups"] if g["name"] == e["owner"] for t in TRAITS if t["name"] in g["mand"] + g["opt"])
-                    site = "c:group-name-clash" if clash else "c:missing-wrapper"
+                    site = "%s:group-name-clash" % lang if clash else "%s:missing-wrapper" % lang
                     if site in known:
                         c.known(known[site]["id"], known[site]["what"])
                     else:
-                        c.violation("vtable entry %s::%s of %s %s (%s, %s) has no callable wrapper: expected `%s`%s" % (
-                            e["tr"], e["m"], e["owner_kind"], e["owner"], e["cont"], e["ctx"], e["wrapper"],
+                        c.violation("[%s] vtable entry %s::%s of %s %s (%s, %s) has no callable wrapper: expected `%s`%s" % (
+                            lang, e["tr"], e["m"], e["owner_kind"], e["owner"], e["cont"], e["ctx"], e["wrapper"],
                             " which exists with parameters %s" % e.get("found_signature") if e["present"] else ""), {"model": model, "entry": e, "dir": md})
+            pc = subprocess.run(cc + ["-O0", "-w", "-o", os.path.join(md, "driver"), os.path.join(md, dname)], capture_output=True, text=True)
+            if pc.returncode != 0:
+                c.violation("[%s] a caller cannot compile calls to the generated wrappers: %s" % (lang, pc.stderr[-600:]), {"model": model, "dir": md})
+                continue
+            pr = subprocess.run([os.path.join(md, "driver")], capture_output=True, text=True, timeout=60)
+            if pr.returncode != 0:
+                c.violation("[%s] calling the generated wrappers crashed (rc=%s)" % (lang, pr.returncode), {"model": model, "dir": md})
+                continue
             # merge expectations into the call events, shift k to be globally unique
-            retvals = {}
+            base = (idx * 2 + (1 if lang == "cpp" else 0)) * 1000
             for l in pr.stdout.splitlines():
                 ev = json.loads(l)
                 if ev["ev"] == "call":
                     e = expected[ev["k"]]
                     n_calls += 1
+                    per_lang[lang]["calls"] += 1
                     ev.update({"kind": e["kind"], "ty": e["ty"], "tr": e["tr"], "m": e["m"], "sent": e.get("sent", []),
-                               "hasBox": e["cont"] == "Box", "hasArc": e["ctx"] == "Arc", "expret": e.get("expret", [])})
-                    ev["k"] = idx * 1000 + ev["k"] + 1
+                               "hasBox": e["cont"] == "Box", "hasArc": e["ctx"] == "Arc", "expret": e.get("expret", []), "lang": lang,
+                               "wrapper": e["wrapper"], "owner": e["owner"]})
+                    ev["k"] = base + ev["k"] + 1
                     ev["model"] = idx
                 elif ev["ev"] == "ret":
-                    ev["k"] = idx * 1000 + ev["k"] + 1
+                    ev["k"] = base + ev["k"] + 1
                 tf.write(json.dumps(ev) + "\n")
     if n_calls:
         r = run_tlc("Trace_Bindgen", "Trace_Bindgen.cfg", name="trace_bindgen", workers=1, env={"TRACE": trace}, depth_first=True, timeout=1500)
@@ -151,14 +178,21 @@ def run_c17(c, tier):
         if r.violation or r.distinct < nev + 1:
             evs = open(trace).read().splitlines()
             bad = evs[r.depth - 1] if 0 < r.depth <= len(evs) else ""
-            c.violation("wrapper invocation trace rejected by Bindgen.tla at event %d: %s [%s]" % (r.depth, bad[:400], r.violation), None, replay_path=trace)
+            # the invocation the rejected event belongs to
+            inv = ""
+            for l in reversed(evs[:max(r.depth - 1, 0)]):
+                if '"ev": "call"' in l:
+                    inv = l
+                    break
+            c.violation("wrapper invocation trace rejected by Bindgen.tla at event %d: %s (invocation: %s) [%s]" % (r.depth, bad[:300], inv[:500], r.violation), None, replay_path=trace)
         else:
             c.cov["traces_validated_against_impl"] += 1
             c.add_tlc("Trace_Bindgen.cfg", r, exhaustive=False)
     c.sample({"model": {k: models[0][k] for k in ("objects", "groups", "config", "foreign")}})
-    return {"models_total": total, "models_run": len(models), "vtable_entries": n_entries, "wrapper_calls_validated": n_calls,
+    return {"models_total": total, "models_run": len(models), "vtable_entries": n_entries, "wrapper_calls_validated": n_calls, "per_language": per_lang,
+            "cpp_models_outside_space": skipped_cpp,
             "evaluations": n_entries, "distinct_nontrivial": len(models), "exhaustive": False,
-            "rule": "API models enumerated by Bindgen.tla (objects x groups x config x foreign declarations), sampled by VERIF_SEED plus the richest ones; every vtable entry of every object/group type is called through its wrapper with distinguishable arguments against mock vtables"}
+            "rule": "API models enumerated by Bindgen.tla (objects x groups x config x foreign declarations), sampled by VERIF_SEED plus the richest ones; for each model the C header (gcc -std=c99 caller) and the C++ header (g++ -std=c++11 caller): every vtable entry of every object/group type is called through its wrapper with distinguishable arguments against mock vtables; in C++ the destructor is the drop helper"}
 
 
 # ------------------------------------------------------------------------------------------------
@@ -173,30 +207,45 @@ def foreign_decls(text, names):
     return [d for _, d in sorted(out)]
 
 
-def run_c18(c, tier):
+def foreign_decls_cpp(text, names):
+    out = []
+    for nm in names:
+        for m in re.finditer(r"(^struct %s \{.*?\n\};)|(^[^\n;{]*\b%s\([^;{]*\);)" % (nm, nm), text, re.S | re.M):
+            out.append((m.start(), m.group(0)))
+    return [d for _, d in sorted(out)]
+
+
+def run_c18(c, tier, langs=("c", "cpp")):
     wd, models, total = enumerate_models(c, tier)
     tool = tool_binary()
     fakebin = fake_cbindgen(wd)
     known = {k["site"]: k for k in lib.known_findings("C18")}
     k_runs = 5 if tier == "quick" else 30
     n = 0
+    per_lang = {l: 0 for l in langs}
     for idx, model in enumerate(models):
-        md, raw, outp, p = run_tool(tool, fakebin, wd, model, idx)
+      for lang in langs:
+        if lang == "cpp" and not cpp_applicable(model):
+            continue
+        md, raw, outp, p = run_tool(tool, fakebin, wd, model, idx, lang=lang)
         if p.returncode != 0 or not os.path.exists(outp):
-            c.violation("cglue-bindgen failed on a header in the supported shape: %s" % p.stderr[-300:], {"model": model, "raw": raw})
+            c.violation("cglue-bindgen failed on a %s header in the supported shape: %s" % (lang, p.stderr[-300:]), {"model": model, "raw": raw})
             continue
         n += 1
-        # (1) self-contained header accepted by C99 compilers
-        for cc in (["gcc", "-std=c99", "-fsyntax-only", "-x", "c"], ["clang", "-std=c99", "-fsyntax-only", "-x", "c"]):
+        per_lang[lang] += 1
+        # (1) self-contained header accepted by C99 (resp. C++11) compilers
+        ccs = ((["gcc", "-std=c99", "-fsyntax-only", "-x", "c"], ["clang", "-std=c99", "-fsyntax-only", "-x", "c"]) if lang == "c" else
+               (["g++", "-std=c++11", "-fsyntax-only", "-x", "c++"], ["clang++", "-std=c++11", "-fsyntax-only", "-x", "c++"]))
+        for cc in ccs:
             pc = subprocess.run(cc + [outp], capture_output=True, text=True)
             if pc.returncode != 0:
-                c.violation("%s rejects the post-processed header: %s" % (cc[0], pc.stderr[-400:]), {"model": model, "header": outp})
+                c.violation("%s %s rejects the post-processed header: %s" % (cc[0], cc[1], pc.stderr[-400:]), {"model": model, "header": outp})
                 break
         # (2) byte-identical on every run (fresh processes)
         first = open(outp, "rb").read()
         digests = {hashlib.sha1(first).hexdigest()}
         for kk in range(k_runs - 1):
-            _, _, o2, p2 = run_tool(tool, fakebin, wd, model, idx, out_name="out_%d.h" % kk)
+            _, _, o2, p2 = run_tool(tool, fakebin, wd, model, idx, out_name="out_%d.h" % kk, lang=lang)
             digests.add(hashlib.sha1(open(o2, "rb").read()).hexdigest())
             os.remove(o2)
         if len(digests) != 1:
@@ -204,14 +253,19 @@ def run_c18(c, tier):
             if site in known:
                 c.known(known[site]["id"], known[site]["what"])
             else:
-                c.violation("%d runs on the same input and configuration produced %d different headers" % (k_runs, len(digests)), {"model": model, "raw": raw})
+                c.violation("[%s] %d runs on the same input and configuration produced %d different headers" % (lang, k_runs, len(digests)), {"model": model, "raw": raw})
         # (3) declarations that do not belong to CGlue constructs survive unmodified and in order
         if model["foreign"]:
-            names = ["FooVtbl", "Pt", "CSliceRef_u8", "BarRetTmp_x", "user_function_Container", "api_entry"]
-            a = foreign_decls(open(raw).read(), names)
-            b = foreign_decls(first.decode(), names)
-            if a != b:
-                c.violation("foreign declarations changed: before %s after %s" % ([x[:60] for x in a], [x[:60] for x in b]), {"model": model, "raw": raw, "out": outp})
+            if lang == "c":
+                names = ["FooVtbl", "Pt", "CSliceRef_u8", "BarRetTmp_x", "user_function_Container", "api_entry"]
+                a = foreign_decls(open(raw).read(), names)
+                b = foreign_decls(first.decode(), names)
+            else:
+                names = ["FooVtbl", "Pt", "BarRetTmp_x", "user_function_Container"]
+                a = foreign_decls_cpp(open(raw).read(), names)
+                b = foreign_decls_cpp(first.decode(), names)
+            if a != b or not a:
+                c.violation("[%s] foreign declarations changed: before %s after %s" % (lang, [x[:60] for x in a], [x[:60] for x in b]), {"model": model, "raw": raw, "out": outp})
     # (4) argument splitting: everything after `--` goes to cbindgen except the output path
     argv_cases = [["--config", "x.toml", "--crate", "foo", "--output", "OUT", "-l", "C"],
                   ["-o", "OUT", "--crate", "foo"], ["--crate", "foo", "-l", "C", "-o", "OUT"],
@@ -240,6 +294,6 @@ def run_c18(c, tier):
             c.violation("cbindgen received %s, expected %s (arguments after `--` minus the output path)" % (got, want), {"argv": argv})
         n += 1
     c.sample({"model": {k: models[0][k] for k in ("objects", "groups", "config", "foreign", "ctxgeneric")}})
-    return {"models_total": total, "models_run": len(models), "runs_per_model": k_runs, "argv_cases": len(argv_cases),
+    return {"models_total": total, "models_run": len(models), "headers_per_language": per_lang, "runs_per_model": k_runs, "argv_cases": len(argv_cases),
             "evaluations": n, "distinct_nontrivial": len(models), "exhaustive": False,
-            "rule": "API models enumerated by Bindgen.tla, sampled by VERIF_SEED plus the richest ones: gcc and clang -std=c99 -fsyntax-only, repeated fresh-process runs hashed, foreign declarations compared before/after, argument splitting cases"}
+            "rule": "API models enumerated by Bindgen.tla, sampled by VERIF_SEED plus the richest ones, C and C++ header of each: gcc and clang -std=c99 (g++ and clang++ -std=c++11) -fsyntax-only, repeated fresh-process runs hashed, foreign declarations compared before/after, argument splitting cases"}
